@@ -2,8 +2,8 @@
     The harness (and the extracted OCaml driver) talk to the models only
     through this function.  Decoding glue only; no proofs. *)
 From Coq Require Import ZArith List Bool.
-From PV Require Import Flat Bytes BinFmt RWQc Sched.
-From PV Require Import RunC07 RunC09 RunC10 RunC11 RunC16 RunC20.
+From PV Require Import Flat Bytes BinFmt RWQc Sched Proto.
+From PV Require Import RunC07 RunC09 RunC10 RunC11 RunC16 RunC18 RunC19 RunC20.
 Import ListNotations.
 Open Scope Z_scope.
 
@@ -80,6 +80,27 @@ Definition m_omp_ranges (inp : list Z) : list Z :=
   | _ => bad_case
   end.
 
+(** 401: events, per, policy -> what create_binary_event_files leaves behind:
+    [0; n_reported; n_files; (index, bytes as list) ...]  or ValueError *)
+Definition m_chunks (inp : list Z) : list Z :=
+  match rd_events inp with
+  | Some (es, per :: po :: _) =>
+    let p := pol_of_z po in
+    match prep_all p es with
+    | None => flat_err 3
+    | Some es' =>
+      let pern := Z.to_nat per in
+      let m := (Nat.div (length es) pern + 1)%nat in
+      let files := flat_map (fun k => match job_file es pern p k with
+                                      | Some f => [(k, f)]
+                                      | None => []
+                                      end) (seq 0 m) in
+      0 :: Z.of_nat (length es') :: Z.of_nat (length files)
+        :: flat_map (fun kf => Z.of_nat (fst kf) :: wr_list (snd kf)) files
+    end
+  | _ => bad_case
+  end.
+
 Definition run_core (id : Z) (inp : list Z) : option (list Z) :=
   if id =? 101 then Some (m_encode inp)
   else if id =? 102 then Some (m_py_read inp)
@@ -90,6 +111,7 @@ Definition run_core (id : Z) (inp : list Z) : option (list Z) :=
   else if id =? 202 then Some (m_kernel inp)
   else if id =? 203 then Some (m_slice_list inp)
   else if id =? 204 then Some (m_omp_ranges inp)
+  else if id =? 401 then Some (m_chunks inp)
   else None.
 
 (** one runner per model family; the first that knows the id answers *)
@@ -100,6 +122,8 @@ Definition runners : list (Z -> list Z -> option (list Z)) :=
   ; run_c10
   ; run_c11
   ; run_c16
+  ; run_c18
+  ; run_c19
   ; run_c20
   ].
 
